@@ -1,3 +1,6 @@
 # sourced by every command of /verif
 export GOFLAGS=-mod=mod GOPROXY=off GOSUMDB=off GOTOOLCHAIN=local
-export VERIF_ROOT=/verif
+# VERIF_ROOT / VERIF_REPO may be preset to run a snapshot of this directory against a scratch worktree of the
+# repository (the seed matrix does); by default they are /verif and /repo
+export VERIF_ROOT=${VERIF_ROOT:-/verif}
+export VERIF_REPO=${VERIF_REPO:-/repo}
